@@ -389,6 +389,8 @@ def run(rep):
         if r['problems']:
             rep.finding('unlisted', {'scenario': r['scenario'], 'option': '-d', 'fault_plan': r['plan'], 'call': r['call'], 'exit_status': r['status'],
                                      'what': r['problems'][:6], 'config': r.get('config', ''), 'stderr': r.get('stderr', '')})
+    # (d) every value taken from the environment at lengths around the buffer it is copied into (tools/envlen.py): -d changes nothing, -n opens nothing
+    import envlen; rep.coverage['environment_length'] = envlen.stage(rep, sc, tools, modes=('dry', 'syntax', 'dry-stdin', 'syntax-stdin'), tier=rep.tier, focus='dry')
     if corr_bad and not rep.violations:
         rep.violation({'obligation': 'correspondence: a -d / -n run does not follow Model.mainP', 'disagreements': len(corr_bad),
                        'examples': corr_bad[:6]}, False)
